@@ -274,7 +274,7 @@ def _c02_case(res: Result, cls: type, spec: describe.StructSpec, tree: dict, dis
         zone = None
         if _has_timestamp(spec) and res.counters["cases"] % 2:
             # the wire carries the instant: the zone a timestamp is expressed in (fixed offsets, zones with DST folds) must not matter
-            zone = _ZONES[res.counters["cases"] % len(_ZONES)]
+            zone = _ZONES[res.counters["cases"] // 2 % len(_ZONES)]  # (// 2: only odd case numbers get here)
             res.count("cases_with_timestamps_in_other_zones")
         describe.INSTANCE_TZ = zone
         try:
@@ -625,6 +625,7 @@ def c05_worker(res: Result, i: int, n: int) -> None:
             if res.counters["cases"] % 4001 == 1:
                 res.sample({"class": walk.class_path(cls), "tree": tree, "wire": wire})
         _c05_accepted_inputs(res, cls, spec, rng, 40 if res.tier == "quick" else 600)
+        _c05_outside_the_model(res, cls, spec, rng)
         # idempotence on non-canonical but conforming input (explicit defaults, unknown tags)
         if spec.flexible:
             g2 = gen.Gen(rng, "wire", unknown_tags=True)
@@ -635,6 +636,58 @@ def c05_worker(res: Result, i: int, n: int) -> None:
         res.count("classes")
     res.coverage["lossy_prone_values"] = lossy
     res.coverage["distinct_nontrivial_encodings"] = len(distinct)
+
+
+_OUTSIDE_MODEL = {
+    "timedelta_i64": (2**63 - 1, -(2**63), gen.TD64_MAX + 86_400_001, gen.TD64_MIN - 1, 86_400_000_000_000_000),
+    "datetime_i64": (-2, -1000, gen.DT_MAX + 1, 2**63 - 1, -(2**63)),
+    "error_code": (128, -2, 32767, -32768, 1000),
+}
+
+
+def _c05_outside_the_model(res: Result, cls: type, spec: describe.StructSpec, rng) -> None:  # noqa: ANN001
+    """Wire values kio's value model cannot hold (int64 durations beyond timedelta, timestamps before 1970 or after 9999, error codes
+    the enum does not know - "rejectable" by DESIGN 5.1).  Rejecting them is fine; accepting one and writing *other* bytes back is not:
+    whatever the decoder accepts has to survive re-encoding unchanged."""
+    from kio.serial import entity_reader
+    from kio.serial.errors import SerialError
+
+    mine = [fs for fs in spec.fields if fs.kind == "prim" and not fs.array and fs.ktype in _OUTSIDE_MODEL]
+    if not mine:
+        return
+    g = gen.Gen(rng, "canonical", big_prob=0.0, long_arrays=False)
+    for fs in mine:
+        for v in _OUTSIDE_MODEL[fs.ktype]:
+            if fs.ktype == "datetime_i64" and fs.nullable and v == -1:
+                continue
+            tree = g.struct(spec)
+            _strip_extras(tree)
+            tree[fs.name] = v
+            try:
+                wire = refcodec.encode_bytes(spec, tree)
+            except Exception:  # noqa: BLE001
+                res.count("outside_model_not_encodable_by_reference")
+                continue
+            res.count("outside_model_inputs")
+            try:
+                ent = entity_reader(cls)(io.BytesIO(wire))
+            except (SerialError, ValueError, OverflowError):
+                res.count("outside_model_rejected")
+                continue
+            except Exception as exc:  # noqa: BLE001
+                res.violation(f"outside-model-raises:{type(exc).__name__}:{fs.ktype}", f"{walk.class_path(cls)}.{fs.name}: wire value {v} ({fs.ktype}) made the decoder raise {exc!r}",
+                              _case_payload(cls, tree, wire=wire, error=traceback.format_exc()))
+                continue
+            try:
+                back = kio_encode(cls, ent)
+            except Exception as exc:  # noqa: BLE001
+                back = repr(exc).encode()
+            if back != wire:
+                res.violation(f"outside-model-rewritten:{fs.ktype}", f"{walk.class_path(cls)}.{fs.name}: the decoder accepted the wire value {v} ({fs.ktype}), which the value model "
+                              f"cannot hold, and re-encoding gives other bytes (first difference at {refcodec.first_diff(back, wire)}): silently rewritten instead of rejected or kept",
+                              _case_payload(cls, tree, wire=wire, reencoded=back, decoded=repr(ent)[:1200]))
+            else:
+                res.count("outside_model_kept_exactly")
 
 
 def _c05_accepted_inputs(res: Result, cls: type, spec: describe.StructSpec, rng, n: int) -> None:  # noqa: ANN001
